@@ -48,29 +48,31 @@ CondHolds(La, b, r) ==
   \/ c.op = "ne" /\ BitsToInt(RawField(La, b, c.c, c.f)) # c.k
   \/ c.op = "eq" /\ BitsToInt(RawField(La, b, c.c, c.f)) = c.k
   \/ c.op = "ge" /\ BitsToInt(RawField(La, b, c.c, c.f)) >= c.k
-Active(La, b) == {r \in Leaves(La) : CondHolds(La, b, r)}
-Same(La, b1, b2) == \A r \in Active(La, b1) : b1[r] = b2[r]            \* equality of abstract states
+\* La.leaves / La.computed / La.hascond are pre-computed by the extraction (= Leaves(La), the leaves with a computed field, some cond.c # 0)
+LeafSet(La) == ToSet(La.leaves)
+Active(La, b) == IF La.hascond THEN {r \in LeafSet(La) : CondHolds(La, b, r)} ELSE LeafSet(La)
+Same(La, b1, b2) == IF La.hascond THEN \A r \in Active(La, b1) : b1[r] = b2[r] ELSE b1 = b2     \* equality of abstract states
 
 \* ------------------------------------------------------------------ presets, computed fields, size, seal
-Preset(La) == [r \in Leaves(La) |-> ToSet(Reg(La, r).preset)]
+Preset(La) == [r \in LeafSet(La) |-> ToSet(Reg(La, r).preset)]
 InvHi16(S) == (S \cap (0..15)) \cup {i + 16 : i \in (0..15) \ S}      \* high half-word = inverse of the low one
 InvLo8(S) == (S \ (8..15)) \cup {i + 8 : i \in (0..7) \ S}             \* byte 1 = inverse of byte 0
 Comp(La, r, S) == IF Reg(La, r).comp = "inv_hi16" THEN InvHi16(S)
                   ELSE IF Reg(La, r).comp = "inv_lo8" THEN InvLo8(S) ELSE S
-Computed(La) == {r \in Leaves(La) : Reg(La, r).comp # ""}
-RECURSIVE SumBytes(_, _, _)
-SumBytes(La, A, n) == IF n = 0 THEN 0 ELSE SumBytes(La, A, n - 1) + (IF n \in A THEN W(La, n) \div 8 ELSE 0)
-ExpSize(La, b) == IF La.size > 0 THEN La.size ELSE SumBytes(La, Active(La, b), Len(La.regs))
+Computed(La) == ToSet(La.computed)
+\* number of bytes of a set of registers (as the cardinality of a set of byte positions: no deep recursion on large layouts)
+SumBytes(La, A) == Cardinality(UNION {{<<r, k>> : k \in 1..(W(La, r) \div 8)} : r \in A})
+ExpSize(La, b) == IF La.size > 0 THEN La.size ELSE SumBytes(La, Active(La, b))
 NormSize(La, b) ==
   IF La.sizefld.r = 0 THEN b
   ELSE LET r == La.sizefld.r
            f == La.sizefld.f
        IN [b EXCEPT ![r] = (b[r] \ FieldMask(La, r, f)) \cup {i + Fld(La, r, f).off : i \in IntToBits(ExpSize(La, b), Fld(La, r, f).width)}]
-Norm(La, b, T) == NormSize(La, [r \in DOMAIN b |-> IF r \in T THEN Comp(La, r, b[r]) ELSE b[r]])
-Sealed(La, b) == [r \in DOMAIN b |-> IF r \in ToSet(La.seal) THEN SealWord ELSE b[r]]
+Norm(La, b, T) == NormSize(La, IF T \cap Computed(La) = {} THEN b ELSE [r \in DOMAIN b |-> IF r \in T THEN Comp(La, r, b[r]) ELSE b[r]])
+Sealed(La, b) == IF La.seal = <<>> THEN b ELSE [r \in DOMAIN b |-> IF r \in ToSet(La.seal) THEN SealWord ELSE b[r]]
 Fresh(La) == NormSize(La, Preset(La))                                  \* the state of a new object
 \* a configuration / a binary denotes the registers that exist; whatever an object holds for the others is not transported
-Restrict(La, b) == [r \in DOMAIN b |-> IF r \in Active(La, b) THEN b[r] ELSE Preset(La)[r]]
+Restrict(La, b) == IF La.hascond THEN [r \in DOMAIN b |-> IF r \in Active(La, b) THEN b[r] ELSE Preset(La)[r]] ELSE b
 
 \* ------------------------------------------------------------------ writes: sequence of [r, f, v]  (f = 0: whole register / group through
 \* its configuration view; f > 0: bit-field f of leaf r)
